@@ -198,6 +198,20 @@ impl Report {
         }
     }
 
+    /// What a helper process (a sanitizer shard) hands back to the run that started it.
+    pub fn summary(&self) -> Value {
+        let g = self.inner.lock().unwrap();
+        json!({
+            "evaluations": g.evaluations,
+            "activations": g.activations,
+            "counters": g.counters,
+            "inconclusive": g.inconclusive,
+            "violations": g.violations.iter().map(|(sig, (v, n))| json!({
+                "rule": v.rule, "signature": sig, "message": v.message, "witness": v.witness, "occurrences": n,
+            })).collect::<Vec<_>>(),
+        })
+    }
+
     pub fn violation_count(&self) -> usize {
         self.inner.lock().unwrap().violations.len()
     }
